@@ -72,7 +72,23 @@ func TestC20SimChild(t *testing.T) {
 			os.Exit(3)
 		}
 	}()
-	synctest.Test(t, func(t *testing.T) {
+	// watchdog in REAL time, outside the bubble: a goroutine that waits for a lock is not "durably blocked", so a
+	// shutdown that deadlocks on a mutex stalls the bubble's clock and no virtual-time watchdog can fire
+	realLimit := 45 * time.Second
+	if os.Getenv("C20_CHILD_REALLIMIT") != "" {
+		if d, err := time.ParseDuration(os.Getenv("C20_CHILD_REALLIMIT")); err == nil {
+			realLimit = d
+		}
+	}
+	go func() {
+		time.Sleep(realLimit)
+		st := res.Stage
+		res.Stage = "hang"
+		res.Err = fmt.Sprintf("stage %q not left after %v of real time (the virtual clock is stalled: some goroutine waits for a lock)", st, realLimit)
+		write()
+		os.Exit(4)
+	}()
+	body := func(t *testing.T) {
 		defer func() {
 			if p := recover(); p != nil {
 				res.Err = fmt.Sprintf("panic: %v", p)
@@ -145,7 +161,24 @@ func TestC20SimChild(t *testing.T) {
 			wg.Done()
 		}(ctx, plan, procLog)
 		res.Stage = "running"
+		// watchdog in VIRTUAL time: the chain takes (duration + padding + 1) cadences; a run whose Group.Start has
+		// not returned several minutes (virtual) after that hangs — tickers of the stuck services keep the bubble's
+		// clock moving, so the wait is short in real time
+		chainTime := time.Duration(plan.Blocks.Duration+plan.Blocks.EndPadding+2) * (plan.Blocks.Cadence.Value() + plan.Blocks.Jitter.Value())
+		finished := make(chan struct{})
+		go func() {
+			select {
+			case <-finished:
+			case <-time.After(chainTime + 10*time.Minute):
+				res.Stage = "hang"
+				res.Err = fmt.Sprintf("Group.Start had not returned %v (virtual) after the end of the chain", 10*time.Minute)
+				res.VirtualSec = int64(time.Since(t0) / time.Second)
+				write()
+				os.Exit(4)
+			}
+		}()
 		wg.Wait()
+		close(finished)
 		res.Stage = "closed"
 
 		res.Verdict = progress.AllProgressComplete()
@@ -163,7 +196,12 @@ func TestC20SimChild(t *testing.T) {
 		_ = outputs.Close()
 		write()
 		os.Exit(0) // leaked listeners would otherwise turn the end of the bubble into a deadlock panic
-	})
+	}
+	if os.Getenv("C20_CHILD_REALTIME") != "" {
+		body(t) // no bubble: real clock, real scheduling (what takes wall time takes time)
+		return
+	}
+	synctest.Test(t, body)
 }
 
 type c20WriterFunc func([]byte) (int, error)
@@ -244,10 +282,11 @@ func c20Shorten(full string, n int) string {
 // c20RunSim runs one simulation in a child process and parses its record.
 // c20RunSim retries a child whose race-detector RUNTIME failed an internal check ("ThreadSanitizer: CHECK failed",
 // seen once in ~250 race-build children): that is a fault of the tool, not of the code under test.
-func c20RunSim(t *testing.T, planJSON []byte, exe string, raceBuild bool) c20SimRecord {
+func c20RunSim(t *testing.T, planJSON []byte, exe string, raceBuild bool, realtime ...bool) c20SimRecord {
 	var rec c20SimRecord
+	rt := len(realtime) > 0 && realtime[0]
 	for attempt := 0; attempt < 3; attempt++ {
-		rec = c20RunSimOnce(t, planJSON, exe, raceBuild)
+		rec = c20RunSimOnce(t, planJSON, exe, raceBuild, rt)
 		if !rec.TsanCheckFailed {
 			break
 		}
@@ -255,7 +294,7 @@ func c20RunSim(t *testing.T, planJSON []byte, exe string, raceBuild bool) c20Sim
 	return rec
 }
 
-func c20RunSimOnce(t *testing.T, planJSON []byte, exe string, raceBuild bool) c20SimRecord {
+func c20RunSimOnce(t *testing.T, planJSON []byte, exe string, raceBuild bool, realtime bool) c20SimRecord {
 	dir, err := os.MkdirTemp("", "c20sim")
 	if err != nil {
 		return c20SimRecord{Result: c20ChildResult{Stage: "harness", Err: err.Error()}}
@@ -268,7 +307,14 @@ func c20RunSimOnce(t *testing.T, planJSON []byte, exe string, raceBuild bool) c2
 	outDir := filepath.Join(dir, "out")
 	_ = os.MkdirAll(outDir, 0o755)
 	cmd := exec.Command(exe, "-test.run", "^TestC20SimChild$", "-test.timeout", "10m")
+	coverChild(cmd)
 	cmd.Env = append(os.Environ(), c20ChildPlanEnv+"="+planPath, c20ChildOutEnv+"="+outDir, "VERIF_OUT="+filepath.Join(dir, "unused.jsonl"))
+	if raceBuild {
+		cmd.Env = append(cmd.Env, "C20_CHILD_REALLIMIT=150s")
+	}
+	if realtime {
+		cmd.Env = append(cmd.Env, "C20_CHILD_REALTIME=1")
+	}
 	var buf bytes.Buffer
 	cmd.Stdout, cmd.Stderr = &buf, &buf
 	t0 := time.Now()
